@@ -10,6 +10,7 @@ import (
 	"os"
 	"sort"
 	"strings"
+	"sync"
 	"syscall"
 	"testing"
 
@@ -38,9 +39,24 @@ type c13PRun struct {
 
 type c13PCase struct{ Runs []c13PRun }
 
-func TestC13Params(t *testing.T) {
-	rec := vh.NewRecorder(t, "C13", "exploration",
-		"parameter part: 2..6 consecutive Execve calls on one pooled environment whose parameters differ (rlimit records present/absent, executable by descriptor/by path, 0..3 extra descriptors, 0..3 environment entries, seccomp filter present/absent, sync before/after exec); the program reports its 16 rlimits, its descriptor table and /proc/self/environ; oracle: every run sees exactly its own parameters - configured limits exact, all others as in a run on the fresh environment, descriptors 0..3+extra and nothing else, the environment given; non-trivial = a run that leaves out something its predecessor configured")
+func TestC13Params(t *testing.T) { c13ParamsTest(t, "C13", false) }
+
+// TestC19Commands: the same histories read as a statement about the control socket's consumer: a command whose fields
+// are empty after one whose fields were set must arrive as sent (gob leaves out zero fields; a receiver that decodes
+// into a value it used before keeps the old ones).
+func TestC19Commands(t *testing.T) { c13ParamsTest(t, "C19", false) }
+
+// TestC17Params: the calls of one case are issued at the same time from several goroutines on one environment (the
+// environment serialises them in some order); each must run with exactly its own parameters, as when issued alone.
+func TestC17Params(t *testing.T) { c13ParamsTest(t, "C17", true) }
+
+func c13ParamsTest(t *testing.T, id string, concurrent bool) {
+	how := "consecutive"
+	if concurrent {
+		how = "concurrent (one goroutine each, one environment)"
+	}
+	rec := vh.NewRecorder(t, id, "exploration",
+		"parameter part ("+how+" calls): 2..6 consecutive Execve calls on one pooled environment whose parameters differ (rlimit records present/absent, executable by descriptor/by path, 0..3 extra descriptors, 0..3 environment entries, seccomp filter present/absent, sync before/after exec); the program reports its 16 rlimits, its descriptor table and /proc/self/environ; oracle: every run sees exactly its own parameters - configured limits exact, all others as in a run on the fresh environment, descriptors 0..3+extra and nothing else, the environment given; non-trivial = a run that leaves out something its predecessor configured")
 	mb := mount.NewDefaultBuilder().WithTmpfs("w", "").WithProc().WithBind("/dev/null", "dev/null", false).WithBind(probe.Path(), "vprobe", true)
 	env, root, err := buildContainer(&container.Builder{Mounts: mb.FilterNotExist().Mounts, WorkDir: "/w"})
 	if err != nil {
@@ -111,10 +127,39 @@ func TestC13Params(t *testing.T) {
 				NEnv: rapid.IntRange(0, 3).Draw(rt, "env"), SyncAfter: rapid.IntRange(0, 3).Draw(rt, "after") == 0, Filter: rapid.Bool().Draw(rt, "filter")})
 		}
 		return c
-	}, func(c c13PCase) error {
+	}, func(c c13PCase) (rerr error) {
+		defer func() {
+			if v, ok := rerr.(*vh.Violation); ok && id != "C13" {
+				v.Key = id + v.Key[3:]
+			}
+		}()
 		nt := false
+		type outcome struct {
+			res runner.Result
+			rep *probe.Report
+			err error
+		}
+		outs := make([]outcome, len(c.Runs))
+		if concurrent {
+			var wg sync.WaitGroup
+			start := make(chan struct{})
+			for ri := range c.Runs {
+				wg.Add(1)
+				go func(ri int) {
+					defer wg.Done()
+					<-start
+					outs[ri].res, outs[ri].rep, outs[ri].err = runOne(c.Runs[ri])
+				}(ri)
+			}
+			close(start)
+			wg.Wait()
+			nt = true
+		}
 		for ri, r := range c.Runs {
-			res, rep, err := runOne(r)
+			if !concurrent {
+				outs[ri].res, outs[ri].rep, outs[ri].err = runOne(r)
+			}
+			res, rep, err := outs[ri].res, outs[ri].rep, outs[ri].err
 			if err != nil {
 				return err
 			}
